@@ -11,6 +11,9 @@ pub struct Dependency {
 #[derive(Debug, Clone, Copy, PartialEq, Eq, Hash)]
 pub enum NodeKind {
     Source(Key),
+    /// A source that was read while it was absent (e.g. `get_singleton` returned
+    /// `None`). The reader must be invalidated when the source appears.
+    AbsentSource(Key),
     Derived(DerivedNodeId),
 }
 
